@@ -54,7 +54,7 @@ def _solve(problem):
     import cvxpy
 
     try:
-        problem.solve(solver=cvxpy.CLARABEL)
+        problem.solve(solver=cvxpy.CLARABEL, max_threads=1)  # single thread: forked shards must not wait on a thread pool they did not inherit
     except Exception:  # noqa: BLE001
         try:
             problem.solve(solver=cvxpy.SCS, eps=1e-9, max_iters=20000)
